@@ -1000,3 +1000,392 @@ Section Invariants.
     specialize (D n). destruct (perm_eval p n) as [sg t]. cbn [fst snd] in D. rewrite En.
     exists sg, t. split; [reflexivity|exact D].
   Qed.
+
+  (** * One step of the repaired container together with the caller's view *)
+
+  Definition inv_all (st : cstate) (g : gmap) : Prop := inv_any st /\ inv_fixed st /\ inv_ghost st g.
+
+  (** after prepareAll every listed element is at least Prepared *)
+  Lemma prepare_all_post (fixed : bool) (nidx : nat) (st st' : cstate) (qs : list quad) (o : cout) :
+    inv_any st -> prepare_all fixed nidx st qs = (st', o) ->
+    o = OUnit /\
+    forall k e p, qfind k (emap st') = Some (e, p) ->
+                  exists q0 s', nth_error (elems st') e = Some (q0, s') /\ status_leb Prepared s' = true.
+  Proof.
+    intros [I K] H. unfold prepare_all in H.
+    pose proof (inv_sound_fill fixed nidx st qs I) as I1. pose proof (inv_keys_fill fixed nidx st qs K) as K1.
+    destruct (run_seq prepare_elem (emap_ids (fill fixed nidx st qs)) (elems (fill fixed nidx st qs))) as [el o1] eqn:R.
+    inversion H. subst st' o1. clear H.
+    destruct (run_seq_prepare _ _ _ _ R (emap_ids_valid _ I1 K1)) as [-> A]. split; [reflexivity|].
+    intros k e p F. cbn [with_elems emap elems] in *. apply A. eapply emap_ids_In. exact F.
+  Qed.
+
+  (** after a computeAll that returned normally every listed element of the repaired container is Computed;
+      without splitting this holds for the unrepaired container as well *)
+  Lemma compute_all_post (st st' : cstate) (b : bool) :
+    inv_any st -> (b = true -> inv_fixed st) -> compute_all st b = (st', OUnit) ->
+    forall k e p, qfind k (emap st') = Some (e, p) -> exists q0, nth_error (elems st') e = Some (q0, Computed).
+  Proof.
+    intros [I K] Fx H k e p F. unfold compute_all in H.
+    destruct (run_seq compute_elem (if b then nontriv_ids st else emap_ids st) (elems st)) as [el o] eqn:R.
+    inversion H. subst st' o. clear H. cbn [with_elems emap elems] in *.
+    eapply run_seq_compute_unit; [exact R|]. destruct b.
+    - destruct (Fx eq_refl) as [F1 _]. destruct (F1 _ _ _ F) as [q0 [s [_ G]]]. eapply nontriv_ids_In. exact G.
+    - eapply emap_ids_In. exact F.
+  Qed.
+
+  Lemma rstep_all (van : quad -> bool) (nidx : nat) (sg : cstate * gmap) (op : cop) :
+    inv_all (fst sg) (snd sg) ->
+    inv_all (fst (rstep true van nidx sg op)) (snd (rstep true van nidx sg op)).
+  Proof.
+    destruct sg as [st g]. cbn [fst snd]. intros [A [Fx G]].
+    pose proof (cstep_any true van nidx st op A) as [A' _].
+    unfold rstep. cbn [fst snd]. destruct (cstep true van nidx st op) as [st' o] eqn:C. cbn [fst snd] in *.
+    split; [exact A'|]. destruct A as [I K]. destruct A' as [I' K'].
+    destruct op as [qs|qs|b|q|q|q|q n]; cbn [cstep gstep] in *.
+    - (* Fill *)
+      inversion C. subst st' o. split; [apply inv_fixed_fill|].
+      apply ghost_all. intros k e p F. destruct I' as [I1 _]. destruct (I1 _ _ _ F) as [q0 [s [En _]]].
+      exists q0, s. split; [exact En|reflexivity].
+    - (* PrepareAll *)
+      destruct (prepare_all_post _ _ _ _ _ _ (conj I K) C) as [-> P]. split.
+      + unfold prepare_all in C.
+        destruct (run_seq prepare_elem (emap_ids (fill true nidx st qs)) (elems (fill true nidx st qs))) as [el o1] eqn:R.
+        inversion C. apply inv_fixed_store; [apply inv_fixed_fill|]. eapply run_seq_le; [exact prepare_elem_le|exact R].
+      + apply ghost_all. exact P.
+    - (* ComputeAll *)
+      assert (E : ext st st' /\ inv_fixed st').
+      { unfold compute_all in C.
+        destruct (run_seq compute_elem (if b then nontriv_ids st else emap_ids st) (elems st)) as [el o1] eqn:R.
+        inversion C. pose proof (run_seq_le _ compute_elem_le _ _ _ _ R) as L.
+        split; [apply ext_with_elems; exact L|apply inv_fixed_store; assumption]. }
+      destruct E as [E Fx']. split; [exact Fx'|].
+      destruct o; try (apply (ghost_sync st); assumption).
+      apply ghost_all. intros k e p F.
+      destruct (compute_all_post st st' b (conj I K) (fun _ => Fx) C _ _ _ F) as [q0 En].
+      exists q0, Computed. split; [exact En|reflexivity].
+    - (* Lookup *)
+      destruct (lookup st q) as [st1 r] eqn:L. cbn [fst] in C. inversion C. subst st' o.
+      destruct (lookup_spec _ _ _ _ L I) as [_ [E _]].
+      split; [eapply inv_fixed_lookup; eassumption|]. apply (ghost_sync st); assumption.
+    - (* PrepareElem *)
+      destruct (lookup st q) as [st1 [e p]] eqn:L. destruct (lookup_spec _ _ _ _ L I) as [[I1 I1b] [E F]].
+      cbn [fst] in C. destruct (I1 _ _ _ F) as [q0 [s [En _]]].
+      destruct (prepare_elem e (elems st1)) as [el o1] eqn:P. inversion C. subst st' o1. clear C.
+      destruct (prepare_elem_post _ _ _ _ _ _ En P) as [-> [s1 [En1 O1]]].
+      pose proof (prepare_elem_le _ _ _ _ P) as Le.
+      split; [apply inv_fixed_store; [eapply inv_fixed_lookup; eassumption|exact Le]|].
+      apply ghost_raise.
+      + apply (ghost_sync st); [exact G|exact I'|]. eapply ext_trans; [exact E|apply ext_with_elems; exact Le].
+      + intros e' p' q0' s' F' En'. cbn [with_elems emap elems] in *. rewrite F in F'. inversion F'. subst e' p'.
+        rewrite En1 in En'. inversion En'. subst. exact O1.
+    - (* ComputeElem *)
+      destruct (lookup st q) as [st1 [e p]] eqn:L. destruct (lookup_spec _ _ _ _ L I) as [[I1 I1b] [E F]].
+      cbn [fst] in C. destruct (I1 _ _ _ F) as [q0 [s [En _]]].
+      destruct (compute_elem e (elems st1)) as [el o1] eqn:P. inversion C. subst st' o1. clear C.
+      pose proof (compute_elem_le _ _ _ _ P) as Le.
+      split; [apply inv_fixed_store; [eapply inv_fixed_lookup; eassumption|exact Le]|].
+      assert (Gs : inv_ghost (with_elems st1 el) (gsync g (with_elems st1 el))).
+      { apply (ghost_sync st); [exact G|exact I'|]. eapply ext_trans; [exact E|apply ext_with_elems; exact Le]. }
+      destruct o; try exact Gs.
+      apply ghost_raise; [exact Gs|].
+      intros e' p' q0' s' F' En'. cbn [with_elems emap elems] in *. rewrite F in F'. inversion F'. subst e' p'.
+      rewrite (compute_elem_post _ _ _ _ _ En P) in En'. inversion En'. reflexivity.
+    - (* Eval *)
+      destruct (lookup st q) as [st1 r] eqn:L. inversion C. subst st' o.
+      destruct (lookup_spec _ _ _ _ L I) as [_ [E _]].
+      split; [eapply inv_fixed_lookup; eassumption|]. apply (ghost_sync st); assumption.
+  Qed.
+
+  Lemma run_any (fixed : bool) (van : quad -> bool) (nidx : nat) (ops : list cop) :
+    inv_any (fst (run fixed van nidx ops)).
+  Proof.
+    unfold run. apply (fold_left_inv (fun sg => inv_any (fst sg))).
+    - intros [st g] op H. unfold rstep. cbn [fst snd] in *.
+      pose proof (cstep_any fixed van nidx st op H) as [A _].
+      destruct (cstep fixed van nidx st op). exact A.
+    - split; [apply inv_sound_init|apply inv_keys_init].
+  Qed.
+
+  Lemma run_all (van : quad -> bool) (nidx : nat) (ops : list cop) :
+    inv_all (fst (run true van nidx ops)) (snd (run true van nidx ops)).
+  Proof.
+    unfold run. apply (fold_left_inv (fun sg => inv_all (fst sg) (snd sg))).
+    - intros sg op H. apply rstep_all. exact H.
+    - split; [split; [apply inv_sound_init|apply inv_keys_init]|]. split; [apply inv_fixed_init|].
+      intros k s H. discriminate H.
+  Qed.
+
+  (** * Main statements, relative to [tables_ok] *)
+
+  Lemma refines_core (van : quad -> bool) (nidx : nat) (ops : list cop) (q : quad) (n : triple) :
+    qfind q (snd (run true van nidx ops)) = Some Computed ->
+    exists sg q0 t,
+      cstep true van nidx (fst (run true van nidx ops)) (Eval q n) = (fst (run true van nidx ops), OVal sg q0 t) /\
+      vscale sg (chi q0 t) = chi q n.
+  Proof.
+    intros H. destruct (run_all van nidx ops) as [[I _] [_ G]].
+    destruct (G _ _ H) as [e [p [q0 [s' [F [En O]]]]]]. apply status_leb_Computed in O. subst s'.
+    destruct (eval_computed true van nidx _ q n e p q0 I F En) as [sg [t [E D]]].
+    exists sg, q0, t. split; assumption.
+  Qed.
+
+  Lemma listed_core (fixed : bool) (van : quad -> bool) (nidx : nat) (ops : list cop) (b : bool) (st' : cstate) :
+    (fixed = true \/ b = false) ->
+    cstep fixed van nidx (fst (run fixed van nidx ops)) (ComputeAll b) = (st', OUnit) ->
+    forall q n, isInContainer st' q = true ->
+    exists sg q0 t, cstep fixed van nidx st' (Eval q n) = (st', OVal sg q0 t) /\ vscale sg (chi q0 t) = chi q n.
+  Proof.
+    intros Hv C q n L. pose proof (run_any fixed van nidx ops) as A.
+    pose proof (cstep_any fixed van nidx _ (ComputeAll b) A) as [[I' _] _]. rewrite C in I'. cbn [fst] in I'.
+    apply isInContainer_true in L. destruct L as [[e p] F]. cbn [cstep] in C.
+    assert (Fx : b = true -> inv_fixed (fst (run fixed van nidx ops))).
+    { intros Hb. destruct Hv as [->|Hv]; [|congruence]. destruct (run_all van nidx ops) as [_ [Fx _]]. exact Fx. }
+    destruct (compute_all_post _ _ _ A Fx C _ _ _ F) as [q0 En].
+    destruct (eval_computed fixed van nidx st' q n e p q0 I' F En) as [sg [t [E D]]].
+    exists sg, q0, t. split; assumption.
+  Qed.
+End Invariants.
+
+(** * Statements that do not mention chi: instantiate the invariants at a one-point value type *)
+
+Lemma tables_ok_unit : tables_ok unit (fun _ _ => tt) (fun _ _ => tt).
+Proof. split; intros; intros n; reflexivity. Qed.
+
+Definition inv_any_u := inv_any unit (fun _ _ => tt) (fun _ _ => tt).
+
+Lemma run_snoc (fixed : bool) (van : quad -> bool) (nidx : nat) (ops : list cop) (op : cop) :
+  run fixed van nidx (ops ++ [op]) = rstep fixed van nidx (run fixed van nidx ops) op.
+Proof. unfold run. rewrite fold_left_app. reflexivity. Qed.
+
+(** No operation of any history ever meets a map entry without an element (the model's analogue of a dangling
+    pointer), for both variants of fill. *)
+Theorem no_dangling : forall (fixed : bool) (van : quad -> bool) (nidx : nat) (ops : list cop) (op : cop),
+  snd (cstep fixed van nidx (fst (run fixed van nidx ops)) op) <> OThrows Dangling.
+Proof.
+  intros fixed van nidx ops op.
+  apply (cstep_any unit (fun _ _ => tt) (fun _ _ => tt) tables_ok_unit fixed van nidx _ op).
+  apply run_any. exact tables_ok_unit.
+Qed.
+
+(** fill / prepareAll list every quadruple they were asked for *)
+Lemma qset_of_list_In (q : quad) (l : list quad) : In q l -> In q (qset_of_list l).
+Proof.
+  intros H. unfold qset_of_list.
+  assert (G : forall l acc, (In q l \/ qfind q acc = Some tt) ->
+                            qfind q (fold_left (fun acc q => qinsert q tt acc) l acc) = Some tt).
+  { clear l H. induction l as [|x r IH]; intros acc H; cbn [fold_left].
+    - destruct H as [[]|H]. exact H.
+    - apply IH. destruct H as [[H|H]|H].
+      + subst x. right. rewrite qfind_qinsert, quad_eqb_refl. destruct (qfind q acc) as [[]|]; reflexivity.
+      + left. exact H.
+      + right. rewrite qfind_qinsert, H. reflexivity. }
+  specialize (G l [] (or_introl H)). apply qfind_In in G.
+  change q with (fst (q, tt)). apply in_map. exact G.
+Qed.
+
+Lemma fill_step_listed (q : quad) : forall (II : list quad) (st : cstate),
+  (In q II \/ isInContainer st q = true) -> isInContainer (fold_left fill_step II st) q = true.
+Proof.
+  induction II as [|x r IH]; intros st H; cbn [fold_left].
+  - destruct H as [[]|H]. exact H.
+  - apply IH. unfold fill_step. destruct H as [[H|H]|H].
+    + subst x. right. destruct (isInContainer st q) eqn:E; [exact E|].
+      apply isInContainer_true. eexists. apply set_emap_self. apply isInContainer_false. exact E.
+    + left. exact H.
+    + right. destruct (isInContainer st x); [exact H|].
+      apply isInContainer_true in H. destruct H as [r0 H]. apply isInContainer_true. exists r0.
+      apply set_emap_mono. exact H.
+Qed.
+
+Theorem fill_lists_requested : forall (fixed : bool) (nidx : nat) (st : cstate) (qs : list quad) (q : quad),
+  In q qs -> isInContainer (fill fixed nidx st qs) q = true.
+Proof.
+  intros fixed nidx st qs q H. rewrite fill_unfold. apply fill_step_listed. left.
+  destruct qs as [|x r]; [destruct H|]. apply qset_of_list_In. exact H.
+Qed.
+
+(** In the repaired container a bulk computation directly after a bulk preparation never throws, whatever
+    happened before. *)
+Theorem bulk_compute_succeeds : forall (van : quad -> bool) (nidx : nat) (ops : list cop) (qs : list quad) (b : bool),
+  snd (cstep true van nidx (fst (run true van nidx (ops ++ [PrepareAll qs]))) (ComputeAll b)) = OUnit.
+Proof.
+  intros van nidx ops qs b.
+  pose proof (run_all unit (fun _ _ => tt) (fun _ _ => tt) tables_ok_unit van nidx (ops ++ [PrepareAll qs])) as [[I K] [[F1 F2] _]].
+  pose proof (run_any unit (fun _ _ => tt) (fun _ _ => tt) tables_ok_unit true van nidx ops) as A0.
+  rewrite run_snoc in *. unfold rstep in *. cbn [cstep] in *.
+  destruct (prepare_all true nidx (fst (run true van nidx ops)) qs) as [st o] eqn:P. cbn [fst snd] in *.
+  destruct (prepare_all_post unit (fun _ _ => tt) (fun _ _ => tt) tables_ok_unit _ _ _ _ _ _ A0 P) as [_ Pp].
+  unfold compute_all.
+  assert (R : snd (run_seq compute_elem (if b then nontriv_ids st else emap_ids st) (elems st)) = OUnit).
+  { apply run_seq_compute_ok. intros e H. destruct b.
+    - destruct (nontriv_ids_entry _ _ K H) as [q0 G]. destruct (F2 _ _ G) as [p Fe]. eapply Pp. exact Fe.
+    - destruct (emap_ids_entry _ _ K H) as [k [p Fe]]. eapply Pp. exact Fe. }
+  destruct (run_seq compute_elem (if b then nontriv_ids st else emap_ids st) (elems st)). exact R.
+Qed.
+
+(** * The theorems of C13 *)
+
+Section Main.
+  Variable V : Type.
+  Variable vneg : V -> V.
+  Variable vscale : Z -> V -> V.
+  Variable chi : quad -> triple -> V.
+  Hypothesis swap12 : swap12_law V vneg chi.
+  Hypothesis swap34 : swap34_law V vneg chi.
+  Hypothesis invol : neg_invol V vneg.
+  Hypothesis scale : scale_law V vneg vscale.
+
+  Let T : tables_ok V vscale chi := alias_denotes V vneg vscale chi swap12 swap34 invol scale.
+
+  (** Both variants of fill, every history: whatever value an evaluation returns is chi of the requested
+      quadruple -- whether the key is stored or an alias, whatever was filled, requested, prepared or computed before. *)
+  Theorem eval_sound : forall (fixed : bool) (van : quad -> bool) (nidx : nat) (ops : list cop) (q : quad) (n : triple)
+                              (sg : Z) (q0 : quad) (t : triple),
+    eval_out fixed van nidx (fst (run fixed van nidx ops)) q n = OVal sg q0 t -> vscale sg (chi q0 t) = chi q n.
+  Proof.
+    intros fixed van nidx ops q n sg q0 t H.
+    eapply (eval_value_sound V vscale chi T); [|exact H]. apply (run_any V vscale chi T).
+  Qed.
+
+  (** Repaired container, every history: a quadruple that the caller has prepared and computed through the container
+      (caller's view = Computed) evaluates, without changing the container, to chi of that quadruple. *)
+  Theorem container_refines_spec : forall (van : quad -> bool) (nidx : nat) (ops : list cop) (q : quad) (n : triple),
+    qfind q (snd (run true van nidx ops)) = Some Computed ->
+    exists sg q0 t,
+      cstep true van nidx (fst (run true van nidx ops)) (Eval q n) = (fst (run true van nidx ops), OVal sg q0 t) /\
+      vscale sg (chi q0 t) = chi q n.
+  Proof. intros van nidx ops q n H. apply (refines_core V vscale chi T). exact H. Qed.
+
+  (** Repaired container: after a bulk computation that returns normally every key the container lists evaluates
+      (no exception) to chi of that key. *)
+  Theorem listed_elements_evaluable : forall (van : quad -> bool) (nidx : nat) (ops : list cop) (b : bool) (st' : cstate),
+    cstep true van nidx (fst (run true van nidx ops)) (ComputeAll b) = (st', OUnit) ->
+    forall q n, isInContainer st' q = true ->
+    exists sg q0 t, cstep true van nidx st' (Eval q n) = (st', OVal sg q0 t) /\ vscale sg (chi q0 t) = chi q n.
+  Proof. intros van nidx ops b st' C q n L. eapply (listed_core V vscale chi T); [left; reflexivity|exact C|exact L]. Qed.
+
+  (** The same holds for the unrepaired container when the bulk computation does not split the communicator. *)
+  Theorem listed_elements_evaluable_nosplit : forall (fixed : bool) (van : quad -> bool) (nidx : nat) (ops : list cop) (st' : cstate),
+    cstep fixed van nidx (fst (run fixed van nidx ops)) (ComputeAll false) = (st', OUnit) ->
+    forall q n, isInContainer st' q = true ->
+    exists sg q0 t, cstep fixed van nidx st' (Eval q n) = (st', OVal sg q0 t) /\ vscale sg (chi q0 t) = chi q n.
+  Proof. intros fixed van nidx ops st' C q n L. eapply (listed_core V vscale chi T); [right; reflexivity|exact C|exact L]. Qed.
+End Main.
+
+(** * How the caller's view becomes Computed: exactly the two ways the property names *)
+
+(** bulk: prepareAll(qs); computeAll(split or not) -- in the repaired container, after any history, every requested
+    quadruple (and every other listed one) is Computed in the caller's view *)
+Theorem ready_after_bulk : forall (van : quad -> bool) (nidx : nat) (ops : list cop) (qs : list quad) (b : bool) (q : quad),
+  isInContainer (fst (run true van nidx (ops ++ [PrepareAll qs]))) q = true ->
+  qfind q (snd (run true van nidx ((ops ++ [PrepareAll qs]) ++ [ComputeAll b]))) = Some Computed.
+Proof.
+  intros van nidx ops qs b q L. rewrite (run_snoc true van nidx (ops ++ [PrepareAll qs])).
+  pose proof (bulk_compute_succeeds van nidx ops qs b) as B.
+  unfold rstep. destruct (cstep true van nidx (fst (run true van nidx (ops ++ [PrepareAll qs]))) (ComputeAll b)) as [st' o] eqn:C.
+  cbn [snd fst] in *. subst o. cbn [gstep]. rewrite qfind_gall, qfind_gsync.
+  assert (E : emap st' = emap (fst (run true van nidx (ops ++ [PrepareAll qs])))).
+  { cbn [cstep] in C. unfold compute_all in C.
+    destruct (run_seq compute_elem _ _) in C. inversion C. reflexivity. }
+  rewrite E. apply isInContainer_true in L. destruct L as [r ->]. reflexivity.
+Qed.
+
+Theorem requested_are_listed : forall (fixed : bool) (van : quad -> bool) (nidx : nat) (ops : list cop) (qs : list quad) (q : quad),
+  In q qs -> isInContainer (fst (run fixed van nidx (ops ++ [PrepareAll qs]))) q = true.
+Proof.
+  intros fixed van nidx ops qs q H. rewrite run_snoc. unfold rstep. cbn [cstep]. unfold prepare_all.
+  destruct (run_seq prepare_elem _ _). cbn [fst]. unfold isInContainer. cbn [with_elems emap].
+  apply (fill_lists_requested fixed nidx _ qs q H).
+Qed.
+
+(** on demand: container(q).prepare(); container(q).compute() -- after any history the compute call returns
+    normally and q is Computed in the caller's view (both variants of fill) *)
+Theorem ready_after_on_demand : forall (fixed : bool) (van : quad -> bool) (nidx : nat) (ops : list cop) (q : quad),
+  snd (cstep fixed van nidx (fst (run fixed van nidx (ops ++ [PrepareElem q]))) (ComputeElem q)) = OUnit /\
+  qfind q (snd (run fixed van nidx ((ops ++ [PrepareElem q]) ++ [ComputeElem q]))) = Some Computed.
+Proof.
+  intros fixed van nidx ops q.
+  pose proof (run_any unit (fun _ _ => tt) (fun _ _ => tt) tables_ok_unit fixed van nidx ops) as [I0 K0].
+  rewrite (run_snoc fixed van nidx (ops ++ [PrepareElem q])). rewrite (run_snoc fixed van nidx ops).
+  assert (P1 : exists st1 g1 e p q0 s1,
+             rstep fixed van nidx (run fixed van nidx ops) (PrepareElem q) = (st1, g1) /\
+             qfind q (emap st1) = Some (e, p) /\ nth_error (elems st1) e = Some (q0, s1) /\
+             status_leb Prepared s1 = true).
+  { unfold rstep. cbn [cstep].
+    destruct (lookup (fst (run fixed van nidx ops)) q) as [st1 [e p]] eqn:L.
+    destruct (lookup_spec unit (fun _ _ => tt) (fun _ _ => tt) tables_ok_unit _ _ _ _ L I0) as [[I1 _] [_ F]].
+    destruct (I1 _ _ _ F) as [q0 [s [En _]]]. cbn [fst].
+    destruct (prepare_elem e (elems st1)) as [el o] eqn:P.
+    destruct (prepare_elem_post _ _ _ _ _ _ En P) as [-> [s1 [En1 O1]]].
+    eexists _, _, e, p, q0, s1. split; [reflexivity|]. cbn [with_elems emap elems]. split; [exact F|]. split; assumption. }
+  destruct P1 as [st1 [g1 [e [p [q0 [s1 [-> [F [En1 O1]]]]]]]]].
+  unfold rstep. cbn [fst snd cstep]. unfold lookup. rewrite F. cbn [fst].
+  assert (C : exists el2, compute_elem e (elems st1) = (el2, OUnit)).
+  { unfold compute_elem. rewrite En1. destruct s1; [discriminate O1|eexists; reflexivity|eexists; reflexivity]. }
+  destruct C as [el2 C]. rewrite C. cbn [fst snd]. split; [reflexivity|].
+  cbn [gstep]. rewrite qfind_graise, qfind_gsync. cbn [with_elems emap]. rewrite F, quad_eqb_refl.
+  destruct (match qfind q g1 with Some s0 => s0 | None => Constructed end); reflexivity.
+Qed.
+
+(** the caller's view of a quadruple stays Computed under every call except fill / prepareAll (which discard the elements) *)
+Theorem ready_stable : forall (fixed : bool) (van : quad -> bool) (nidx : nat) (ops : list cop) (op : cop) (q : quad),
+  (forall qs, op <> Fill qs /\ op <> PrepareAll qs) ->
+  qfind q (snd (run fixed van nidx ops)) = Some Computed ->
+  qfind q (snd (run fixed van nidx (ops ++ [op]))) = Some Computed.
+Proof.
+  intros fixed van nidx ops op q Hop H.
+  pose proof (run_any unit (fun _ _ => tt) (fun _ _ => tt) tables_ok_unit fixed van nidx ops) as A0.
+  pose proof (run_any unit (fun _ _ => tt) (fun _ _ => tt) tables_ok_unit fixed van nidx (ops ++ [op])) as A1.
+  rewrite run_snoc in *. unfold rstep in *.
+  destruct (cstep fixed van nidx (fst (run fixed van nidx ops)) op) as [st' o] eqn:C. cbn [fst snd] in *.
+  (* q is listed before (the caller's view only has listed keys) and stays listed *)
+  assert (S : qfind q (gsync (snd (run fixed van nidx ops)) st') = Some Computed ->
+              qfind q (gstep (snd (run fixed van nidx ops)) op st' o) = Some Computed).
+  { intros Gs. destruct op as [qs|qs|b|q'|q'|q'|q' n]; cbn [gstep].
+    - destruct (Hop qs) as [N _]. congruence.
+    - destruct (Hop qs) as [_ N]. congruence.
+    - destruct o; try exact Gs. rewrite qfind_gall, Gs. reflexivity.
+    - exact Gs.
+    - rewrite qfind_graise, Gs. destruct (quad_eqb q q'); reflexivity.
+    - destruct o; try exact Gs. rewrite qfind_graise, Gs. destruct (quad_eqb q q'); reflexivity.
+    - exact Gs. }
+  apply S. rewrite qfind_gsync, H.
+  (* listed before: the ghost is a sub-map of the listing; show q stays listed *)
+  assert (Lq : exists r, qfind q (emap st') = Some r); [|destruct Lq as [r ->]; reflexivity].
+  clear S A1.
+  assert (Lb : exists r, qfind q (emap (fst (run fixed van nidx ops))) = Some r).
+  { (* by induction over the history the ghost's keys are listed keys *)
+    clear C Hop op st' o A0. revert H. generalize Computed. unfold run.
+    apply (fold_left_inv (fun sg => forall s, qfind q (snd sg) = Some s -> exists r, qfind q (emap (fst sg)) = Some r)).
+    - intros [st g] op IH s. unfold rstep. cbn [fst snd]. destruct (cstep fixed van nidx st op) as [st' o] eqn:C.
+      cbn [fst snd]. intros Hg.
+      assert (Gs : forall g0, (exists s0, qfind q (gsync g0 st') = Some s0) -> exists r, qfind q (emap st') = Some r).
+      { intros g0 [s0 Hs]. rewrite qfind_gsync in Hs. destruct (qfind q (emap st')) as [r|]; [exists r; reflexivity|discriminate Hs]. }
+      destruct op as [qs|qs|b|q'|q'|q'|q' n]; cbn [gstep] in Hg.
+      + apply (Gs []). rewrite qfind_gall in Hg. destruct (qfind q (gsync [] st')); [eexists; reflexivity|discriminate Hg].
+      + apply (Gs []). rewrite qfind_gall in Hg. destruct (qfind q (gsync [] st')); [eexists; reflexivity|discriminate Hg].
+      + apply (Gs g). destruct o; try (eexists; exact Hg).
+        rewrite qfind_gall in Hg. destruct (qfind q (gsync g st')); [eexists; reflexivity|discriminate Hg].
+      + apply (Gs g). eexists. exact Hg.
+      + apply (Gs g). rewrite qfind_graise in Hg. destruct (qfind q (gsync g st')); [eexists; reflexivity|discriminate Hg].
+      + apply (Gs g). destruct o; try (eexists; exact Hg).
+        rewrite qfind_graise in Hg. destruct (qfind q (gsync g st')); [eexists; reflexivity|discriminate Hg].
+      + apply (Gs g). eexists. exact Hg.
+    - intros s Hs. discriminate Hs. }
+  destruct Lb as [r Lb]. exists r. destruct A0 as [I0 K0].
+  destruct op as [qs|qs|b|q'|q'|q'|q' n]; cbn [cstep] in C.
+  - destruct (Hop qs) as [N _]. congruence.
+  - destruct (Hop qs) as [_ N]. congruence.
+  - unfold compute_all in C. destruct (run_seq compute_elem _ _) in C. inversion C. exact Lb.
+  - destruct (lookup (fst (run fixed van nidx ops)) q') as [st1 r1] eqn:L. inversion C. subst st'.
+    destruct (lookup_spec unit (fun _ _ => tt) (fun _ _ => tt) tables_ok_unit _ _ _ _ L I0) as [_ [[M _] _]]. apply M. exact Lb.
+  - destruct (lookup (fst (run fixed van nidx ops)) q') as [st1 r1] eqn:L.
+    destruct (lookup_spec unit (fun _ _ => tt) (fun _ _ => tt) tables_ok_unit _ _ _ _ L I0) as [_ [[M _] _]].
+    destruct (prepare_elem (fst r1) (elems st1)) in C. inversion C. cbn [with_elems emap]. apply M. exact Lb.
+  - destruct (lookup (fst (run fixed van nidx ops)) q') as [st1 r1] eqn:L.
+    destruct (lookup_spec unit (fun _ _ => tt) (fun _ _ => tt) tables_ok_unit _ _ _ _ L I0) as [_ [[M _] _]].
+    destruct (compute_elem (fst r1) (elems st1)) in C. inversion C. cbn [with_elems emap]. apply M. exact Lb.
+  - destruct (lookup (fst (run fixed van nidx ops)) q') as [st1 r1] eqn:L. inversion C. subst st'.
+    destruct (lookup_spec unit (fun _ _ => tt) (fun _ _ => tt) tables_ok_unit _ _ _ _ L I0) as [_ [[M _] _]]. apply M. exact Lb.
+Qed.
